@@ -20,7 +20,7 @@ var c02Lattice = []int32{0, 1, -1, 2, -2, 31, 32, 33, 63, 0x7f, 0x80, 0xff, 0x10
 var c02Imms = []int32{0, 1, -1, 2, 4, 5, 31, 32, 33, 63, -32, 255, -256, 2047, -2048, 1000}
 
 type c02Pattern struct {
-	Name        string
+	Name       string
 	Rd, R1, R2 string
 }
 
@@ -93,11 +93,11 @@ func c02Text(m string, p c02Pattern, imm int32) string {
 }
 
 type c02Eval struct {
-	M       string
-	Pat     c02Pattern
-	A, B    int32 // values of rs1 / rs2 (for memory ops A is turned into an in-bounds base)
-	Imm     int32
-	Nops    int // instructions before the one under test (varies pc)
+	M    string
+	Pat  c02Pattern
+	A, B int32 // values of rs1 / rs2 (for memory ops A is turned into an in-bounds base)
+	Imm  int32
+	Nops int // instructions before the one under test (varies pc)
 }
 
 // c02Run evaluates one triple and returns "" or a description of the mismatch.
